@@ -1010,7 +1010,7 @@ func c07Gen(r *rand.Rand, tier string) []string {
 	// deliveries in flight or preload, and a sample of the rest; no multi-megabyte files
 	var keep []string
 	for i, l := range out {
-		conc := strings.Contains(l, " cons=") || strings.Contains(l, " win=") || strings.Contains(l, " pre=1 ")
+		conc := strings.Contains(l, " cons=") || ((strings.Contains(l, " win=") || strings.Contains(l, " pre=1 ")) && i%2 == 0)
 		every := 8
 		if tier == "thorough" {
 			every = 40
